@@ -508,3 +508,126 @@ func NewCountingWindow
   ensures inv: result1 == nil ==> result0 != nil && cwInv(result0)
   ensures positive-threshold: result1 == nil ==> result0.threshold >= 1
 @*/
+
+/*@
+// ---------------------------------------------------------------- global window (C17)
+guarded_by GlobalWindow.mu: groups, callback, stopped
+monitor GlobalWindow.mu inv gwInv
+
+pred gwInv(gw) := gw.groups != nil && forallv(k, "", dom(gw.groups, k) ==> gw.groups[k] != nil && gw.groups[k].keyValues != nil && gw.groups[k].outputAggs != nil && gw.groups[k].triggerAggs != nil)
+
+func normalizeField
+  props C17
+  option pure
+
+func (*GlobalWindow).findOutputSpec
+  props C17
+  ensures found-spec-has-the-same-aggregate-and-column: result != -1 ==> 0 <= result && result < len(gw.outputSpecs) && gw.outputSpecs[result].aggType == aggType && normalizeField(gw.outputSpecs[result].inputField) == normalizeField(inputField)
+  ensures first-match: result != -1 ==> forall(j, 0, result, !(gw.outputSpecs[j].aggType == aggType && normalizeField(gw.outputSpecs[j].inputField) == normalizeField(inputField)))
+  ensures minus-one-means-no-match: result == -1 ==> forall(j, 0, len(gw.outputSpecs), !(gw.outputSpecs[j].aggType == aggType && normalizeField(gw.outputSpecs[j].inputField) == normalizeField(inputField)))
+  loop 1 invariant forall(j, 0, $i, !(gw.outputSpecs[j].aggType == aggType && normalizeField(gw.outputSpecs[j].inputField) == normalizeField(inputField)))
+
+extern (*GlobalWindow).getKeyAndValues
+  props C17
+  option pure
+
+func lookupFieldValue
+  props C17
+  ensures bare-column-direct-lookup: true
+
+func toAggregateValue
+  props C17
+  ensures non-null-stays-non-null: v != nil ==> result != nil
+
+func feedAggs
+  props C17
+  modifies pkgheaps(functions)
+  before Add null-or-missing-input-is-never-fed: $arg1 != nil
+
+func feedTriggerAggs
+  props C17
+  modifies pkgheaps(functions)
+  before Add null-or-missing-input-is-never-fed: $arg1 != nil
+
+func newGroupState
+  props C17
+  modifies pkgheaps(functions)
+  ensures starts-from-empty: fresh(result) && !result.hasData && fresh(result.keyValues) && fresh(result.outputAggs) && fresh(result.triggerAggs) && result.key == key
+  loop 1 invariant fresh(gs) && fresh(gs.keyValues) && fresh(gs.outputAggs) && fresh(gs.triggerAggs) && !gs.hasData && gs.key == key
+  loop 2 invariant fresh(gs) && fresh(gs.keyValues) && fresh(gs.outputAggs) && fresh(gs.triggerAggs) && !gs.hasData && gs.key == key
+  loop 3 invariant fresh(gs) && fresh(gs.keyValues) && fresh(gs.outputAggs) && fresh(gs.triggerAggs) && !gs.hasData && gs.key == key
+
+func (*GlobalWindow).shouldFire
+  props C17
+  held gw.mu
+  ensures true
+
+func (*GlobalWindow).buildResult
+  props C17
+  held gw.mu
+  ensures result-is-a-new-row: fresh(result)
+
+extern (*GlobalWindow).deliver
+  props C17
+  modifies *
+
+func (*GlobalWindow).processRow
+  props C17
+  acquires gw.mu
+  modifies *
+  observe fire := shouldFire
+  observe built := buildResult
+  before deliver fires-only-when-the-predicate-holds: $fire
+  before deliver delivers-the-result-built-for-this-group: $arg1 == $built
+  before deliver group-is-purged-before-delivery: !dom(gw.groups, key)
+  before deliver other-groups-neither-trigger-nor-change: forallv(k, "", k != key ==> (dom(gw.groups, k) <==> old(dom(gw.groups, k))) && gw.groups[k] == old(gw.groups[k]))
+  before buildResult result-is-built-from-the-rows-group: $arg1 == gs
+  before shouldFire predicate-is-tested-on-the-rows-group: $arg1 == gs
+  before Unlock group-kept-while-predicate-is-false: wheld(gw.mu) && !$fire && gs != nil ==> dom(gw.groups, key) && gw.groups[key] == gs
+  loop 1 invariant held(gw.mu) && wheld(gw.mu) && gs != nil && gs.keyValues != nil && dom(gw.groups, key) && gw.groups[key] == gs && gwInv(gw)
+  loop 1 invariant forallv(k, "", k != key ==> (dom(gw.groups, k) <==> old(dom(gw.groups, k))) && gw.groups[k] == old(gw.groups[k]))
+
+func (*GlobalWindow).reapIdleKeys
+  props C17
+  acquires gw.mu
+  modifies mapof(gw.groups)
+  ensures only-idle-groups-reaped: forallv(k, "", old(dom(gw.groups, k)) && !dom(gw.groups, k) ==> now - old(gw.groups[k]).lastActive > gw.countStateTTL)
+  loop 1 invariant gwInv(gw) && held(gw.mu) && wheld(gw.mu)
+  loop 1 invariant forallv(k, "", old(dom(gw.groups, k)) && !dom(gw.groups, k) ==> now - old(gw.groups[k]).lastActive > gw.countStateTTL)
+  loop 1 invariant forallv(k, "", dom(gw.groups, k) ==> old(dom(gw.groups, k)) && gw.groups[k] == old(gw.groups[k]))
+
+func (*GlobalWindow).Reset
+  props C17
+  acquires gw.mu
+  modifies gw.groups, gw.sentCount, gw.droppedCount
+  ensures every-group-restarts-from-empty: forallv(k, "", !dom(gw.groups, k))
+
+func (*GlobalWindow).SetCallback
+  props C17
+  acquires gw.mu
+  modifies gw.callback
+  ensures gw.callback == callback
+
+func (*GlobalWindow).Stop
+  props C17
+  modifies *
+  ensures true
+
+func (*GlobalWindow).Add
+  props C17
+  modifies *
+  ensures true
+
+extern (*GlobalWindow).buildOutputSpecs
+  props C17
+  modifies gw.outputSpecs
+
+extern (*GlobalWindow).buildTrigger
+  props C17
+  modifies gw.triggerSpecs, gw.rewrittenPredicate, gw.triggerCond
+
+func NewGlobalWindow
+  props C17
+  modifies *
+  ensures inv: result1 == nil ==> result0 != nil && gwInv(result0)
+@*/
